@@ -21,13 +21,24 @@ from .protocol import ClassView, walk_own
 Q_SUFFIXES = ["_q", "_q1", "_q2", "_q1_q2", "_qe"]
 U_SUFFIXES = ["_u", "_u1", "_u2", "_ue"]
 
+SUBSYS_RECV = ("subsystem",)
+Q_ALIAS = [
+    # scalar force-law kernels f(t, l, l_dot[, la_c]) depend on q through l (and l_dot)
+    (r"^_la_c$", ["_la_c_l", "_la_c_l_dot"]), (r"^_c$", ["_c_l", "_c_l_dot"]),
+    (r"^__c$", ["__c_q"]), (r"^force$", ["force_q"]),
+]
+E_ALIAS = [
+    # energy atom -> the generalized force direction through which the force enters h  (E_pot <-> h coverage)
+    (r"^l$", ["W_l", "l_q", "subsystem.W_l"]), (r"^r_OP$", ["J_P", "r_OP_q"]), (r"^_E_pot$", ["la_c", "_la_c"]),
+    (r"^E_pot_el$", ["f_int_el", "f_pot_el"]),
+]
 U_ALIAS = [
     # velocity-like quantity -> Jacobian w.r.t. u   (reason: naming convention v = J u + ...)
     (r"^v_P$", ["J_P"]), (r"^v_J([12])$", [r"J_J\1"]), (r"^v_C([12])$", [r"J_C\1"]),
     (r"^Omega$", ["J_R"]), (r"^B_Omega$", ["B_J_R"]), (r"^Omega([12])$", [r"J_R\1", r"J\1_R"]),
     (r"^q_dot$", ["q_dot_u"]), (r"^g_dot$", ["W_g", "g_dot_u"]), (r"^g_N_dot$", ["g_N_dot_u", "W_N"]),
     (r"^gamma_F$", ["gamma_F_u", "W_F"]), (r"^gamma$", ["gamma_u", "W_gamma"]), (r"^l_dot$", ["l_dot_u", "W_l"]),
-    (r"^v_P1P2$", []),
+    (r"^v_P1P2$", []), (r"^_la_c$", ["_la_c_l_dot"]), (r"^_c$", ["_c_l_dot"]),
 ]
 T_ALIAS = [
     # quantity -> its time derivative (or, failing that, the q-derivative used through q_dot)
@@ -109,13 +120,21 @@ class K5:
                     continue
             tn = self.tainted_names(b, seeds)
             for n in walk_own(b):
-                if isinstance(n, ast.Call) and isinstance(n.func, ast.Attribute) and isinstance(n.func.value, ast.Name) and n.func.value.id == sn:
+                if not (isinstance(n, ast.Call) and isinstance(n.func, ast.Attribute)):
+                    continue
+                recv = n.func.value
+                a = None
+                if isinstance(recv, ast.Name) and recv.id == sn:
                     a = n.func.attr
                     if self.callable_kind(a) is None:
                         continue
-                    argnames = {x.id for arg in list(n.args) + [k.value for k in n.keywords] for x in ast.walk(arg) if isinstance(x, ast.Name)}
-                    if dep == "t" or (argnames & tn):
-                        out.setdefault(a, n)
+                elif isinstance(recv, ast.Attribute) and isinstance(recv.value, ast.Name) and recv.value.id == sn and recv.attr in SUBSYS_RECV:
+                    a = f"{recv.attr}.{n.func.attr}"
+                if a is None:
+                    continue
+                argnames = {x.id for arg in list(n.args) + [k.value for k in n.keywords] for x in ast.walk(arg) if isinstance(x, ast.Name)}
+                if dep == "t" or (argnames & tn):
+                    out.setdefault(a, n)
         # helpers without any companion are inlined (e.g. W_N -> g_N_dot_u, private _compute helpers)
         if depth < 2:
             for a in list(out):
@@ -126,15 +145,34 @@ class K5:
         return out
 
     def companions(self, a, dep):
+        prefix = ""
+        base = a
+        if "." in a:
+            prefix, base = a.rsplit(".", 1)
+            prefix += "."
         if dep == "q":
-            cands = [a + s for s in Q_SUFFIXES]
+            cands = [base + s for s in Q_SUFFIXES] + _alias(Q_ALIAS, base)
         elif dep == "u":
-            cands = [a + s for s in U_SUFFIXES] + _alias(U_ALIAS, a)
+            cands = [base + s for s in U_SUFFIXES] + _alias(U_ALIAS, base)
+        elif dep == "E":
+            cands = _alias(E_ALIAS, base)
         else:
-            cands = [a + "_dot", a + "_t"] + _alias(T_ALIAS, a)
-        ex = [c for c in cands if self.callable_kind(c) is not None]
-        nz = [c for c in ex if not self.is_zero(c)]
+            cands = [base + "_dot", base + "_t"] + _alias(T_ALIAS, base)
+        if prefix:
+            ex = [prefix + c for c in cands if self.subsystem_has(prefix[:-1], c)]
+            return ex, list(ex)
+        ex = [c for c in cands if (self.subsystem_has(c.split(".")[0], c.split(".")[1]) if "." in c else self.callable_kind(c) is not None)]
+        nz = [c for c in ex if "." in c or not self.is_zero(c)]
         return ex, nz
+
+    def subsystem_has(self, recv, name):
+        """all supported scalar-interface subsystem classes provide `name`."""
+        from . import tables
+        model = self.ctx.model
+        for cname in tables.SCALAR_SUBSYSTEMS:
+            if not model.has_attr(model.cls(cname), name):
+                return False
+        return True
 
     def refs(self, name, depth=0, seen=None):
         """self attributes referenced by `name` (following delegations / private helpers one level)."""
@@ -147,6 +185,9 @@ class K5:
             for n in walk_own(b):
                 if isinstance(n, ast.Attribute) and isinstance(n.value, ast.Name) and n.value.id == sn and isinstance(n.ctx, ast.Load):
                     out.add(n.attr)
+                if isinstance(n, ast.Attribute) and isinstance(n.value, ast.Attribute) and isinstance(n.value.value, ast.Name) \
+                        and n.value.value.id == sn and n.value.attr in SUBSYS_RECV:
+                    out.add(f"{n.value.attr}.{n.attr}")
         for a in list(out):
             if self.callable_kind(a) in ("method",) and depth < 1:
                 out |= self.refs(a, depth + 1, seen)
